@@ -75,6 +75,7 @@ structure Cfg where
   restoreCommitted : Bool -- RestoreCommittedLogs with a commit-tracking store
   trailing : Nat          -- TrailingLogs
   maxAE : Nat             -- MaxAppendEntries (batch size of processLogs)
+  noPreVote : Bool := false   -- PreVoteDisabled
 deriving DecidableEq, Repr
 
 inductive FsmCall
@@ -144,6 +145,8 @@ inductive Resp
   | install (term : Nat) (success : Bool) (err : Bool)
   | timeoutNow
   | snap (ok : Bool)       -- takeSnapshot: nil / an error
+  -- one pass of the candidate loop: the peers asked for a pre-vote / a vote, and what every request carried
+  | campaigned (preAsked voteAsked : List Nat) (term lastIdx lastTerm : Nat) (transfer : Bool)
   | none
 deriving DecidableEq, Repr
 
@@ -529,6 +532,97 @@ def snapPlan (cf : Cfg) (d : Durable) (v : Vol) (fpos : Nat × Nat) (fdata : Lis
     | none => ⟨[(.snapSave s, mkRes (.snap false) v)], mkRes (.snap true) v1⟩
     | some (lo, hi) =>
       ⟨[(.snapSave s, mkRes (.snap false) v), (.deleteRange lo hi, mkRes (.snap false) v1)], mkRes (.snap true) v1⟩
+
+/-! ## one pass of the candidate loop (raft.go: runCandidate, preElectSelf, electSelf) -/
+
+/-- what one peer answers (the harness delivers the answers in ascending order of peer id, the
+    candidate's own vote first, as the real channel does) -/
+structure PeerResp where
+  id : Nat
+  pvErr : Nat          -- pre-vote: 0 = an answer, 1 = transport error, 2 = "unexpected command" (no pre-vote support)
+  pvTerm : Nat
+  pvGranted : Bool
+  vErr : Bool          -- vote: transport error
+  vTerm : Nat
+  vGranted : Bool
+deriving DecidableEq, Repr
+
+/-- the server's own identity in the harness -/
+def selfId : Nat := 1
+def selfAddr : Nat := 11
+
+/-- the voters a candidate turns to: every voter of its latest configuration but itself -/
+def votersToAsk (c : Config) : List Nat := (c.filter (fun s => s.suffrage = .voter ∧ s.id ≠ selfId)).map (·.id)
+
+def quorumOf (c : Config) : Nat := (c.filter (fun s => s.suffrage = .voter)).length / 2 + 1
+
+inductive Tally
+  | won                   -- the quorum was reached
+  | higher (t : Nat)      -- an answer carried a newer term
+  | open                  -- neither, when the answers ran out (the election times out)
+deriving DecidableEq, Repr
+
+/-- count answers `(term, granted)` in arrival order until the quorum, or a newer term, is seen -/
+def tally (needed limit : Nat) : Nat → List (Nat × Bool) → Tally
+  | _, [] => .open
+  | g, (t, ok) :: rest =>
+    if t > limit then .higher t
+    else
+      let g' := if ok then g + 1 else g
+      if g' ≥ needed then .won else tally needed limit g' rest
+
+/-- the answers to the pre-vote round as the candidate sees them -/
+def preVoteAnswers (term' : Nat) (asked : List Nat) (rs : List PeerResp) : List (Nat × Bool) :=
+  asked.filterMap (fun id => (rs.find? (·.id = id)).map (fun r =>
+    if r.pvErr = 1 then (term', false) else if r.pvErr = 2 then (term', true) else (r.pvTerm, r.pvGranted)))
+
+def voteAnswers (term' : Nat) (asked : List Nat) (rs : List PeerResp) : List (Nat × Bool) :=
+  asked.filterMap (fun id => (rs.find? (·.id = id)).map (fun r =>
+    if r.vErr then (term', false) else (r.vTerm, r.vGranted)))
+
+/-- all failure results of a campaign's writes are "the process dies" (setCurrentTerm panics; the
+    harness injects no fault here) -/
+def campDead (v : Vol) : Res := { mkRes .none v with panic := true }
+
+def campAsked (v : Vol) : List Nat := (votersToAsk v.latest).mergeSort (· ≤ ·)
+
+/-- the candidate's own (pre-)vote, if it is a voter of its latest configuration -/
+def campSelf (v : Vol) : List (Nat × Bool) := if hasVote v.latest selfId then [(v.term + 1, true)] else []
+
+def campDone (v' : Vol) : Vol := { v' with transfer := false }
+
+/-- what was asked of whom (what the requests carried is observable only if some were sent; the
+    transfer flag only on vote requests) -/
+def campSaid (v : Vol) (pre vote : List Nat) : Resp :=
+  if pre = [] ∧ vote = [] then .campaigned [] [] 0 0 0 false
+  else .campaigned pre vote (v.term + 1) (lastEntry v).1 (lastEntry v).2 (vote ≠ [] ∧ v.transfer)
+
+/-- the term write and the candidate's own vote -/
+def campBase (v : Vol) : List (Write × Res) :=
+  (.setTerm (v.term + 1), campDead v) ::
+    (if hasVote v.latest selfId then
+      [(.setVoteTerm (v.term + 1), campDead { v with term := v.term + 1 }),
+       (.setVoteCand selfAddr, campDead { v with term := v.term + 1 })]
+     else [])
+
+/-- the real election: term incremented and persisted, own vote persisted, voters asked, votes counted -/
+def campElect (v : Vol) (rs : List PeerResp) (preAsked : List Nat) : Plan :=
+  let t1 := v.term + 1
+  let v1 : Vol := { v with term := t1 }
+  match tally (quorumOf v.latest) t1 0 (campSelf v ++ voteAnswers t1 (campAsked v) rs) with
+  | .won => ⟨campBase v, mkRes (campSaid v preAsked (campAsked v))
+              (campDone { v1 with role := .leader, leader := selfAddr, leaderId := selfId })⟩
+  | .higher t => ⟨campBase v ++ [(.setTerm t, campDead v1)], mkRes (campSaid v preAsked (campAsked v)) (campDone (stepDown v1 t))⟩
+  | .open => ⟨campBase v, mkRes (campSaid v preAsked (campAsked v)) (campDone v1)⟩
+
+/-- one pass of `runCandidate` for a server whose role is candidate -/
+def campaign (cf : Cfg) (v : Vol) (rs : List PeerResp) : Plan :=
+  if cf.noPreVote ∨ v.transfer then campElect v rs []
+  else
+    match tally (quorumOf v.latest) (v.term + 1) 0 (campSelf v ++ preVoteAnswers (v.term + 1) (campAsked v) rs) with
+    | .won => campElect v rs (campAsked v)
+    | .higher t => ⟨[(.setTerm t, campDead v)], mkRes (campSaid v (campAsked v) []) (campDone (stepDown v t))⟩
+    | .open => ⟨[], mkRes (campSaid v (campAsked v) []) (campDone v)⟩
 
 /-! ## restart (`NewRaft`) -/
 
